@@ -684,14 +684,16 @@ fn to_list(ctx: &Context, top: &Number, list: &[&str]) -> Result<Vec<NumberParts
                 ctx, top, first,
             ))));
         }
-        // `ans` can be a member of the list, and it can be zero.
-        if let Some(zero) = units
+        // `ans` can be a member of the list, and it can be zero. A few
+        // database units are negative (`delisle_absolute`); the parts of a
+        // list with one of those could not all have the sign of the value.
+        if let Some(bad) = units
             .iter()
-            .find(|x| x.value == Numeric::zero() || x.value == Numeric::Float(0.0))
+            .find(|x| !(x.value > Numeric::zero()))
         {
             return Err(QueryError::generic(format!(
-                "Units in unit list must not be zero: <{}>",
-                zero.show(ctx)
+                "Units in unit list must be positive: <{}>",
+                bad.show(ctx)
             )));
         }
     }
